@@ -370,13 +370,13 @@ func (c *labelCtx) addLabel(lin *kit.LinEval, f *ssa.Function, call *ssa.Call, k
 	}
 	want := sh.ph.Add(sh.off).Add(sh.n)
 	subst := c.ctorAtoms(lin, f)
-	inits, why := lockstepInits(label, call)
+	inits, bias, why := lockstepInitsBias(label, call)
 	if why != "" {
 		c.r.Bad(c.rule, key, pos, "the label passed to add() does not advance in lockstep with the headers added: %s", why)
 		return
 	}
 	for _, in := range inits {
-		l := lin.Of(in).Subst(subst)
+		l := lin.Of(in).AddK(bias).Subst(subst)
 		if !l.OK || !want.OK {
 			c.r.Unknown(c.rule, key, pos, "not normalisable: first label %s, first position %s", l, want)
 			return
@@ -393,7 +393,7 @@ func (c *labelCtx) addLabel(lin *kit.LinEval, f *ssa.Function, call *ssa.Call, k
 			ys := c.shapeOf(lin, y, call)
 			src := ys.ph.Add(ys.off).Add(lo)
 			if src.OK && len(inits) == 1 {
-				first := lin.Of(inits[0]).Subst(subst)
+				first := lin.Of(inits[0]).AddK(bias).Subst(subst)
 				// only decidable when the source is the receiver (same chain, heights preserved)
 				if _, isRecv := kit.Strip(y).(*ssa.Parameter); isRecv {
 					if !src.Equal(first) {
@@ -410,7 +410,39 @@ func (c *labelCtx) addLabel(lin *kit.LinEval, f *ssa.Function, call *ssa.Call, k
 
 // lockstepInits walks the phi chain of the label: every non-initial edge must be `phi + 1` computed
 // in the block of the add call; returns the initial values.
-func lockstepInits(label ssa.Value, add *ssa.Call) ([]ssa.Value, string) {
+func lockstepInits(label ssa.Value, add *ssa.Call) ([]ssa.Value, string) { // nolint: kept for callers without bias
+	inits, _, why := lockstepInitsBias(label, add)
+	return inits, why
+}
+
+// lockstepInitsBias: as lockstepInits; bias is what the first label exceeds the returned initial
+// values by (1 for the pre-increment form `height++; add(header, height)`).
+func lockstepInitsBias(label ssa.Value, add *ssa.Call) ([]ssa.Value, int64, string) {
+	if b, ok := label.(*ssa.BinOp); ok && b.Op == token.ADD {
+		if ph, isPhi := b.X.(*ssa.Phi); isPhi {
+			if k, isC := kit.ConstInt(b.Y); isC && k == 1 && (b.Block() == add.Block() || inLockstep(add, b)) {
+				var inits []ssa.Value
+				okForm := len(cycleOf(ph.Block())) > 0
+				for _, e := range ph.Edges {
+					if e == ssa.Value(b) {
+						continue
+					}
+					if ei, isI := e.(ssa.Instruction); isI && ei.Block() != nil && cycleOf(ph.Block())[ei.Block()] {
+						okForm = false
+					}
+					inits = append(inits, e)
+				}
+				if okForm && len(inits) > 0 {
+					return inits, 1, ""
+				}
+			}
+		}
+	}
+	inits, why := lockstepInitsPost(label, add)
+	return inits, 0, why
+}
+
+func lockstepInitsPost(label ssa.Value, add *ssa.Call) ([]ssa.Value, string) {
 	// form `add(S[i], base+i)` with i the index of the loop over S: element i gets base+i, so the
 	// labels advance with the elements by construction; the first label is base
 	if b, ok := label.(*ssa.BinOp); ok && b.Op == token.ADD {
